@@ -3,6 +3,7 @@ package props
 import (
 	"fmt"
 	"sort"
+	"strings"
 	"sync"
 	"testing"
 	"time"
@@ -29,6 +30,13 @@ func c18Tags(t *rapid.T) map[string]string {
 	m := map[string]string{}
 	for _, k := range keys {
 		m[k] = c18Val.Draw(t, "tag-val")
+		// tag names are case-sensitive identities: "host" and "Host" are two tags of one series
+		if rapid.IntRange(0, 3).Draw(t, "case-twin") == 0 {
+			m[strings.ToUpper(k[:1])+k[1:]] = c18Val.Draw(t, "twin-val")
+			if rapid.Bool().Draw(t, "upper-twin") {
+				m[strings.ToUpper(k)] = c18Val.Draw(t, "twin-val2")
+			}
+		}
 	}
 	return m
 }
